@@ -134,9 +134,12 @@ out = {'by_kind': res}
 
 def check_fields(led):
     lab = 'compmech/panel/models (installed binary): fuvw / fstrain'
-    files = ['compmech/panel/models/clt_bardell_field.pyx', 'compmech/panel/models/clt_bardell_field_w.pyx']
-    if not pyreplay.binary_matches_source(files):
-        led.bounded_item('field wrappers: numeric cross-check skipped, the installed extension was not built from the current .pyx text')
+    # the clauses checked here (thread count, order, point-by-point) concern the wrappers and the u, v, w, slope kernels; cfstrain was
+    # repaired at source level after the build, which does not affect them
+    ok_text = (pyreplay.functions_match_build('compmech/panel/models/clt_bardell_field.pyx', ['fuvw', 'fstrain', 'cfuvw', 'cfwx', 'cfwy'])
+               and pyreplay.binary_matches_source(['compmech/panel/models/clt_bardell_field_w.pyx']))
+    if not ok_text:
+        led.bounded_item('field wrappers: numeric cross-check skipped, the installed extension was not built from the current text of fuvw / fstrain')
         return
     led.bounded_item('numeric cross-check of the installed field extensions (thorough tier): 11 point counts 1..101 x thread counts {1,2,3,4,7,16}, random points, '
                      'a permutation, point-by-point evaluation; one cylindrical and one w-only panel')
@@ -155,7 +158,7 @@ def check_fields(led):
 def check_connections(led):
     lab = 'compmech/panel/connections (installed binary)'
     files = ['compmech/panel/connections/%s.pyx' % k for k in ('kCSSxcte', 'kCSSycte', 'kCBFxcte', 'kCBFycte', 'kCSB')]
-    if not pyreplay.binary_matches_source(files + ['compmech/panel/models/clt_bardell_field.pyx']):
+    if not (pyreplay.binary_matches_source(files) and pyreplay.functions_match_build('compmech/panel/models/clt_bardell_field.pyx', ['fuvw', 'cfuvw', 'cfwx', 'cfwy'])):
         led.bounded_item('connection kernels: numeric cross-check skipped, the installed extension was not built from the current .pyx text')
         return
     led.bounded_item('numeric cross-check of the installed connection extensions (thorough tier): 5 kinds x 3 random panel pairs (unequal sizes, orders, random edge flags, '
@@ -167,6 +170,107 @@ def check_connections(led):
     for kind, d in sorted((r.get('by_kind') or {}).items()):
         for key, tol in (('negative_eigenvalue_ratio', 1e-9), ('energy_relative_deviation', 1e-8)):
             name = '%s/numeric-cross-check/%s/%s' % (lab, kind, key)
+            if d[key] <= tol:
+                led.ok(name, lab, backend='numeric(bounded)')
+            else:
+                led.error('%s: %.3g although the kernel contract was proved on the .pyx text' % (name, d[key]))
+
+
+STIFF = '''
+import numpy as np
+from numpy.polynomial.legendre import leggauss
+from compmech.panel import Panel
+from compmech.stiffener.models import bladestiff1d_clt_donnell_bardell as B1, bladestiff2d_clt_donnell_bardell as B2, tstiff2d_clt_donnell_bardell as T2
+from compmech.sparse import make_symmetric
+rs = np.random.RandomState(11)
+lp = (142.5e9, 8.7e9, 0.28, 5.1e9, 5.1e9, 5.1e9)
+FL = ('u1tx','u1rx','u2tx','u2rx','v1tx','v1rx','v2tx','v2rx','w1tx','w1rx','w2tx','w2rx','u1ty','u1ry','u2ty','u2ry','v1ty','v1ry','v2ty','v2ry','w1ty','w1ry','w2ty','w2ry')
+def panel(a, b, m, n):
+    p = Panel(a=a, b=b, m=m, n=n, stack=[0, 90, 90, 0], plyt=1.25e-4, laminaprop=lp, model='plate_clt_donnell_bardell')
+    for f in FL:
+        setattr(p, f, float(rs.randint(0, 2)))
+    p._rebuild(); p.r = 0.
+    return p
+def fl(p, names):
+    return [getattr(p, n) for n in names]
+XF = ['u1tx','u1rx','u2tx','u2rx','v1tx','v1rx','v2tx','v2rx','w1tx','w1rx','w2tx','w2rx']
+YF = ['u1ty','u1ry','u2ty','u2ry','v1ty','v1ry','v2ty','v2ry','w1ty','w1ry','w2ty','w2ry']
+def dense(M):
+    return np.asarray(M.todense())
+def fields(p, cc, xs, ys):
+    return [np.asarray(q).ravel() for q in p.uvw(cc, xs=np.asarray(xs, dtype=float), ys=np.asarray(ys, dtype=float))]
+xg, wg = leggauss(40)
+res = {}
+kt, kr = 2.3, 0.7
+worst = 0.; worst_psd = 0.
+for trial in range(3):
+    # ---- 2-D blade: skin line y = ys <-> flange edge eta = -1
+    sk, fla = panel(1.3, 0.7, 4, 3), panel(1.3, 0.09, 3, 4)
+    ys = (0.1 + 0.8*rs.rand())*sk.b
+    n1, n2 = 3*sk.m*sk.n, 3*fla.m*fla.n
+    size = n1 + n2
+    kss = B2.fkCss(kt, kr, ys, sk.a, sk.b, sk.m, sk.n, *(fl(sk, XF) + fl(sk, YF) + [size, 0, 0]))
+    ksf = B2.fkCsf(kt, kr, ys, sk.a, sk.b, fla.b, sk.m, sk.n, fla.m, fla.n, *(fl(sk, XF) + fl(sk, YF) + fl(fla, XF) + fl(fla, YF) + [size, 0, n1]))
+    kff = B2.fkCff(kt, kr, sk.a, fla.b, fla.m, fla.n, *(fl(fla, XF) + fl(fla, YF) + [size, n1, n1]))
+    Kd = dense(make_symmetric(kss + kff)) + dense(ksf) + dense(ksf).T
+    w = np.linalg.eigvalsh((Kd + Kd.T)/2); worst_psd = max(worst_psd, float(-w.min()/w.max()))
+    c = rs.rand(size) - 0.5
+    xs = (xg + 1)/2*sk.a
+    A = fields(sk, c[:n1].copy(), xs, np.ones_like(xs)*ys); B = fields(fla, c[n1:].copy(), xs, np.zeros_like(xs))
+    wq = wg*sk.a/2
+    best = None
+    for s in (1, -1):
+        J = [A[0] - B[0], A[1] - s*B[2], A[2] + s*B[1]]
+        rot = (-A[4]) - (-B[4])
+        E = 0.5*kt*sum((j*j*wq).sum() for j in J) + 0.5*kr*(rot*rot*wq).sum()
+        d = abs(E - 0.5*c.dot(Kd).dot(c))/abs(E)
+        best = d if best is None else min(best, d)
+    worst = max(worst, float(best))
+res['bladestiff2d fkCss/fkCsf/fkCff'] = {'energy_relative_deviation': worst, 'negative_eigenvalue_ratio': worst_psd}
+worst = 0.; worst_psd = 0.
+for trial in range(3):
+    # ---- T stiffener: skin strip y1..y2 <-> base surface
+    sk = panel(1.3, 0.7, 4, 3)
+    y1 = (0.1 + 0.3*rs.rand())*sk.b; y2 = y1 + (0.1 + 0.3*rs.rand())*sk.b
+    ba = panel(1.3, y2 - y1, 3, 4)
+    dpb = 0.004
+    n1, n2 = 3*sk.m*sk.n, 3*ba.m*ba.n
+    size = n1 + n2
+    kpp = T2.fkCppy1y2(y1, y2, kt, sk.a, sk.b, dpb, sk.m, sk.n, *(fl(sk, XF) + fl(sk, YF) + [size, 0, 0]))
+    kpb = T2.fkCpby1y2(y1, y2, kt, sk.a, sk.b, dpb, sk.m, sk.n, ba.m, ba.n, *(fl(sk, XF) + fl(sk, YF) + fl(ba, XF) + fl(ba, YF) + [size, 0, n1]))
+    kbb = T2.fkCbbpby1y2(y1, y2, kt, sk.a, sk.b, ba.m, ba.n, *(fl(ba, XF) + fl(ba, YF) + [size, n1, n1]))
+    Kd = dense(make_symmetric(kpp + kbb)) + dense(kpb) + dense(kpb).T
+    w = np.linalg.eigvalsh((Kd + Kd.T)/2); worst_psd = max(worst_psd, float(-w.min()/w.max()))
+    c = rs.rand(size) - 0.5
+    X, Yb = np.meshgrid((xg + 1)/2*sk.a, (xg + 1)/2*ba.b)
+    A = fields(sk, c[:n1].copy(), X.ravel(), Yb.ravel() + y1); B = fields(ba, c[n1:].copy(), X.ravel(), Yb.ravel())
+    wq = np.outer(wg*ba.b/2, wg*sk.a/2).ravel()
+    best = None
+    for s in (1, -1):
+        J = [A[0] + s*dpb*(-A[3]) - B[0], A[1] + s*dpb*(-A[4]) - B[1], A[2] - B[2]]
+        E = 0.5*kt*sum((j*j*wq).sum() for j in J)
+        d = abs(E - 0.5*c.dot(Kd).dot(c))/abs(E)
+        best = d if best is None else min(best, d)
+    worst = max(worst, float(best))
+res['tstiff2d fkCppy1y2/fkCpby1y2/fkCbbpby1y2'] = {'energy_relative_deviation': worst, 'negative_eigenvalue_ratio': worst_psd}
+out = {'by_family': res}
+'''
+
+
+def check_stiffener_kernels(led):
+    lab = 'compmech/stiffener/models (installed binary)'
+    files = ['compmech/stiffener/models/%s.pyx' % k for k in ('bladestiff2d_clt_donnell_bardell', 'tstiff2d_clt_donnell_bardell')]
+    if not (pyreplay.binary_matches_source(files) and pyreplay.functions_match_build('compmech/panel/models/clt_bardell_field.pyx', ['fuvw', 'cfuvw', 'cfwx', 'cfwy'])):
+        led.bounded_item('stiffener connection kernels: numeric cross-check skipped, an extension involved was not built from the current .pyx text')
+        return
+    led.bounded_item('numeric cross-check of the installed stiffener connection extensions (thorough tier): 3 random configurations per family')
+    r = pyreplay.run_real(STIFF, {}, timeout=1500)
+    if r.get('raised') or r.get('replay_error'):
+        led.error('numeric cross-check of the stiffener kernels could not run: %s' % (r.get('raised') or r.get('replay_error')))
+        return
+    for fam, d in sorted((r.get('by_family') or {}).items()):
+        for key, tol in (('negative_eigenvalue_ratio', 1e-9), ('energy_relative_deviation', 1e-8)):
+            name = '%s/numeric-cross-check/%s/%s' % (lab, fam, key)
             if d[key] <= tol:
                 led.ok(name, lab, backend='numeric(bounded)')
             else:
